@@ -139,6 +139,31 @@ V = [
     ("balance-non-hermitian", ["C11"], "BALANCE", "CompositeOperationType.compute_operator", [("photon_weave/operation/composite_operation.py", "CompositeOperationType.compute_operator", "operator = jnp.kron(a_dagger, b) + jnp.kron(a, b_dagger)", "operator = jnp.kron(a_dagger, b) - jnp.kron(a, b_dagger)")]),
     ("balance-cutoff", ["C11", "C10"], "BALANCE", "CompositeOperationType.compute_dimensions", [("photon_weave/operation/composite_operation.py", "CompositeOperationType.compute_dimensions", "dim = int(jnp.sum(jnp.array(num_quanta))) + 1", "dim = int(jnp.max(jnp.array(num_quanta))) + 1")]),
     ("balance-same-mode", ["C11"], "BALANCE", "CompositeOperationType.compute_operator", [("photon_weave/operation/composite_operation.py", "CompositeOperationType.compute_operator", "b = creation_operator(dimensions[1])", "b = creation_operator(dimensions[0])")]),
+    # ---------------------------------------------------------------- LAYOUT / ENVAXIS / second-round rules
+    ("layout-missing-transpose-back", ["C01"], "LAYOUT", "Envelope.apply_operation", [(S + "envelope.py", "Envelope.apply_operation", "            ps = ps.transpose([0, 2, 1, 3])\n            ps = ps.reshape(self.dimensions, self.dimensions)", "            ps = ps.reshape(self.dimensions, self.dimensions)")]),
+    ("layout-kraus-no-transpose", ["C06"], "LAYOUT", "Envelope.apply_kraus", [(S + "envelope.py", "Envelope.apply_kraus", "            self.state = resulting_state.transpose([0, 2, 1, 3]).reshape(", "            self.state = resulting_state.reshape(")]),
+    ("layout-blocked-literal", ["C06"], "LAYOUT", "Envelope.apply_kraus", [(S + "envelope.py", "Envelope.apply_kraus", "            ps = self.state.reshape([*reshape_shape, *reshape_shape]).transpose(\n                [0, 2, 1, 3]\n            )\n            resulting_state = jnp.zeros_like(ps)", "            ps = self.state.reshape([*reshape_shape, *reshape_shape])\n            resulting_state = jnp.zeros_like(ps)")]),
+    ("layout-self-inverse", ["C10"], "LAYOUT", "ProductState.resize_fock", [(S + "composite_envelope.py", "ProductState.resize_fock", "                ps = ps.transpose(inverse_pattern)\n                self.state = ps.reshape((dims, dims))", "                ps = ps.transpose(transpose_pattern)\n                self.state = ps.reshape((dims, dims))")]),
+    ("layout-trace-literal", ["C04", "C05"], "LAYOUT", "Envelope.measure", [(S + "envelope.py", "Envelope.measure", "                            self.fock.state = jnp.einsum(\"abcb->ac\", ps)", "                            self.fock.state = jnp.einsum(\"abbc->ac\", ps)")]),
+    ("envaxis-no-reorder", ["C01"], "ENVAXIS", "Envelope.apply_operation", [(S + "envelope.py", "Envelope.apply_operation", "        self.reorder(*states)\n\n        if isinstance(operation._operation_type, FockOperationType) and isinstance(", "        if isinstance(operation._operation_type, FockOperationType) and isinstance(")]),
+    ("envaxis-reorder-before-combine", ["C06"], "ENVAXIS", "Envelope.apply_kraus", [(S + "envelope.py", "Envelope.apply_kraus", "        if self.state is None:\n            self.combine()\n\n        # Reorder\n        self.reorder(*states)", "        # Reorder\n        self.reorder(*states)\n\n        if self.state is None:\n            self.combine()")]),
+    ("envaxis-povm-reorder-first", ["C09"], "ENVAXIS", "Envelope.measure_POVM", [(S + "envelope.py", "Envelope.measure_POVM", "        C = Config()\n\n        if len(states) == 2 and self.state is None:\n            self.combine()\n\n        # Reordering has an effect only after the spaces are combined\n        self.reorder(*states)", "        self.reorder(*states)\n        C = Config()\n\n        if len(states) == 2 and self.state is None:\n            self.combine()")]),
+    ("envaxis-slot-swap", ["C10"], "ENVAXIS", "Envelope.resize_fock", [(S + "envelope.py", "Envelope.resize_fock", "reshape_shape[self.polarization.index] = self.polarization.dimensions", "reshape_shape[self.polarization.index] = self.fock.dimensions")]),
+    ("label-swap-rl", ["C07", "C08"], "LABEL", "Polarization.expand", [(S + "polarization.py", "Polarization.expand", "vector = [1 / jnp.sqrt(2), 1j / jnp.sqrt(2)]", "vector = [1 / jnp.sqrt(2), -1j / jnp.sqrt(2)]")]),
+    ("label-contract-mismatch", ["C07", "C08"], "LABEL", "Polarization.contract", [(S + "polarization.py", "Polarization.contract", "            if jnp.allclose(self.state, jnp.array([[1], [0]])):\n                self.state = PolarizationLabel.H", "            if jnp.allclose(self.state, jnp.array([[1], [0]])):\n                self.state = PolarizationLabel.V")]),
+    ("label-outcome-swapped", ["C05"], "LABEL", "ProductState.measure", [(S + "composite_envelope.py", "ProductState.measure", "                        if outcomes[state] == 0:\n                            state.state = PolarizationLabel.H\n                        else:\n                            state.state = PolarizationLabel.V\n                    else:\n                        state.state = outcomes[state]\n                    state.index = None\n                    state.expansion_level = ExpansionLevel.Label\n                self.state_objs.remove(state)", "                        if outcomes[state] == 0:\n                            state.state = PolarizationLabel.V\n                        else:\n                            state.state = PolarizationLabel.H\n                    else:\n                        state.state = outcomes[state]\n                    state.index = None\n                    state.expansion_level = ExpansionLevel.Label\n                self.state_objs.remove(state)")]),
+    ("absorb-not-released", ["C13", "C02"], "BOOK-absorb", "CompositeEnvelope.combine", [(S + "composite_envelope.py", "CompositeEnvelope.combine", "            state_order.extend(product_state.state_objs)\n            product_state.state_objs = []", "            state_order.extend(product_state.state_objs)")]),
+    ("absorb-own-state-kept", ["C13", "C02"], "BOOK-absorb", "CompositeEnvelope.combine", [(S + "composite_envelope.py", "CompositeEnvelope.combine", "                so.state = None\n                state_order.append(so)", "                state_order.append(so)")]),
+    ("valid-members-check-dropped", ["C17"], "VALID", "Envelope.apply_kraus", [(S + "envelope.py", "Envelope.apply_kraus", "        for s in states:\n            if s is not self.polarization and s is not self.fock:\n                raise ValueError(\n                    \"Given states have to be members of the envelope, \"\n                    \"use env.fock and env.polarization\"\n                )\n", "")]),
+    ("valid-required-params", ["C17"], "VALID", "Operation.__init__", [("photon_weave/operation/operation.py", "Operation.__init__", "        for param in operation_type.required_params:\n            if param not in kwargs:\n                raise KeyError(\n                    f\"The '{param}' argument is required for {operation_type.name}\"\n                )", "        pass")]),
+    ("valid-operand-types", ["C17"], "VALID", "ProductState.apply_operation", [(S + "composite_envelope.py", "ProductState.apply_operation", "                assert isinstance(\n                    s, op_type.expected_base_state_types[i]  # type: ignore\n                )", "                pass")]),
+    ("deleg-reversed", ["C01", "C03"], "DELEG-ORDER", "CompositeEnvelope.apply_operation", [(S + "composite_envelope.py", "CompositeEnvelope.apply_operation", "ps.apply_operation(operator, *states)", "ps.apply_operation(operator, *reversed(states))")]),
+    ("deleg-kraus-all-states", ["C06"], "DELEG-ORDER", "CompositeEnvelope.apply_kraus", [(S + "composite_envelope.py", "CompositeEnvelope.apply_kraus", "        ps.apply_kraus(operators, *states)", "        ps.apply_kraus(operators, *ps.state_objs[: len(states)])")]),
+    ("outcome-space-shifted", ["C04"], "OUTCOME-SPACE", "Fock.measure", [(S + "fock.py", "Fock.measure", "                probs = probs / jnp.sum(probs)\n                key = C.random_key\n                result = int(jax.random.choice(key, a=jnp.arange(len(probs)), p=probs))", "                probs = probs / jnp.sum(probs)\n                key = C.random_key\n                result = int(jax.random.choice(key, a=jnp.arange(1, len(probs) + 1), p=probs))")]),
+    ("dim-floor-dropped", ["C10"], "DIM-FLOOR", "FockOperationType.compute_dimensions", [("photon_weave/operation/fock_operation.py", "FockOperationType.compute_dimensions", "                    Operation(FockOperationType.Squeeze, **kwargs),\n                    num_quanta,\n                    threshold,\n                )\n                cd = fd.compute_dimensions()\n                if cd < num_quanta + 1:\n                    cd = num_quanta + 1\n", "                    Operation(FockOperationType.Squeeze, **kwargs),\n                    num_quanta,\n                    threshold,\n                )\n                cd = fd.compute_dimensions()\n")]),
+    ("partner-self", ["C05", "C04"], "PARTNER", "CompositeEnvelope.measure", [(S + "composite_envelope.py", "CompositeEnvelope.measure", "                    if isinstance(s, Fock):\n                        os = s.envelope.polarization", "                    if isinstance(s, Fock):\n                        os = s.envelope.fock")]),
+    ("purity-wide-tolerance", ["C08"], "PURITY", "Fock.contract", [(S + "fock.py", "Fock.contract", "            if jnp.abs(state_trace - 1) < tol:", "            if jnp.abs(state_trace - 1) < 0.5:")]),
+    ("evict-missing", ["C05", "C13", "C20"], "BOOK-evict", "ProductState.measure", [(S + "composite_envelope.py", "ProductState.measure", "                # Remove the mesaured state from the product state\n                self.state_objs.remove(state)\n", "")]),
 ]
 
 # neutral variants: (id, transform name)
